@@ -16,7 +16,11 @@ def run(ctx):
         return
     nseq, maxops = (900, 80) if ctx.tier == "quick" else (24000, 300)
     out = C.run_harness(ctx, bins["store"], ["--seed", ctx.seed, "--seqs", nseq, "--maxops", maxops])
-    cases = [json.loads(l) for l in out.splitlines() if l.startswith("{")]
+    lines = [json.loads(l) for l in out.splitlines() if l.startswith("{")]
+    cases = [c for c in lines if c.get("mode") != "panic"]
+    for c in [c for c in lines if c.get("mode") == "panic"][:3]:
+        ctx.violations.append({"what": "C06: a store operation panicked or failed where the abstract expiring map answers (last operation of the list): " + c["msg"][:300],
+                               "input": {"cfg": c["cfg"], "ops": c["ops"]}})
     terms = [SC.case_term(c) for c in cases]
     dist = {"per": 0, "ada": 0, "pro": 0, "steps": 0, "get": 0, "set": 0, "cas": 0, "cleanups_observed": 0,
             "sequences_with_cleanup": 0, "write_success": 0, "write_fail": 0, "get_hit": 0, "get_miss": 0}
